@@ -138,12 +138,18 @@ struct GridChain {
     limited_done:
     // ---- representation twins ----
     if (!twin_reported && coin(75)) {
-      int hx_ = rnd(0, 7), hy_ = rnd(0, 7); std::string dx, dy;
+      int hx_ = rnd(0, 9), hy_ = rnd(0, 9); std::string dx, dy;
       Grid x2 = grid_twin(x_t, hx_, dx), y2 = grid_twin(y_t, hy_, dy);
       Lattice a, b; checked(2);
       if (!obs_grid(x2, a) || !obs_grid(y2, b) || !ref::same(a, LX) || !ref::same(b, LY)) { hx::inconclusive("twin_build_mismatch.Grid"); }
       else {
         std::string s2x = status_of(x2), s2y = status_of(y2);
+        // the convergence certificate must depend on the value only: same certificate on every representation
+        if (!LY.empty) {
+          Grid ya(y_t), yb(y2); Grid_Certificate ca(ya), cb(yb); checked(); hx::count("certificate_twin_compares");
+          int c1 = ca.compare(cb), c2 = cb.compare(ca);
+          if (c1 != 0 || c2 != 0) { violation(key("certificate", op.name, ":differs-on-representation-twin"), "Grid_Certificate of y [" + status_of(y_t) + "] vs its twin (" + dy + ") [" + s2y + "]: compare = " + std::to_string(c1) + "/" + std::to_string(c2) + "; y=" + show(LY)); return false; }
+        }
         tr(" | x'=twin(x:" + dx + "); y'=twin(y:" + dy + "); x'." + op.name + "(y')");
         op.call(x2, y2, 0);
         Lattice LZ2; checked(); hx::count("twin_checks"); hx::count("twin." + dx); hx::count("twin." + dy);
@@ -203,7 +209,7 @@ struct GridChain {
         Grid z(x); bool stationary = false;
         if (!step(op, y, x, z, stationary, it < 12 || coin(15))) return;
         if (stationary) { if (++quiet >= 3) break; } else { quiet = 0; ++len; }
-        if (coin(30)) { std::string d; Grid zt = grid_twin(z, rnd(0, 7), d); Lattice a, b; if (obs_grid(zt, a) && obs_grid(z, b) && ref::same(a, b)) { y = zt; tr(" || y=twin(z:" + d + ")"); hx::count("alternations"); } else { hx::inconclusive("twin_build_mismatch.Grid"); y = z; } }
+        if (coin(30)) { std::string d; Grid zt = grid_twin(z, rnd(0, 9), d); Lattice a, b; if (obs_grid(zt, a) && obs_grid(z, b) && ref::same(a, b)) { y = zt; tr(" || y=twin(z:" + d + ")"); hx::count("alternations"); } else { hx::inconclusive("twin_build_mismatch.Grid"); y = z; } }
         else y = z;
       } catch (const Logical_Timeout&) { violation(key("hang", op.name), "logical-time budget exceeded"); return;
       } catch (const std::exception& e) { violation(key("unexpected_exception", op.name, std::string(".") + typeid(e).name()), e.what()); return; }
